@@ -8,7 +8,7 @@ from common import VERIF, same_value
 from props.c08 import rand_handler
 from props.c15 import res_equal
 
-RULE = ("class groups named with YAML-significant words and characters (on/off/yes/no/y/n/null/numbers/indicators/quotes), class groups given as lists of up to 14 groups; evaluator configurations with every field moved away from its default (input type, approximator backend, matcher "
+RULE = ("configuration files named with and without a yaml suffix (dotted names, Path objects); class groups named with YAML-significant words and characters (on/off/yes/no/y/n/null/numbers/indicators/quotes), class groups given as lists of up to 14 groups; evaluator configurations with every field moved away from its default (input type, approximator backend, matcher "
         "kind/metric/threshold incl. thresholds that do not fit two decimals/many-to-one, handler tables and empty-list "
         "value, class groups of every kind, metric selections, decision metric/threshold, flags), saved -> loaded -> saved; "
         "checked: second file byte-identical, attribute trees identical, results identical on probe inputs chosen per "
@@ -157,7 +157,12 @@ def tagged_mappings(t, acc):
 def roundtrip_obj(ctx, obj, cls, inp, what, model_classes):
     d = VERIF / ".work" / f"c19_{os.getpid()}"
     d.mkdir(parents=True, exist_ok=True)
-    p1, p2 = str(d / "a.yaml"), str(d / "b.yaml")
+    # file names with and without a yaml suffix, dotted names, Path objects
+    stem = ctx.rng.choice(["a.yaml", "a.yaml", "cfg.yml", "cfg", "evaluator_iou0.5", "evaluator_iou0.25", "run.v2.conf", "tmpx1_"])
+    p1, p2 = str(d / stem), str(d / ("second_" + stem))
+    ctx.count("config_file_name." + ("yaml-suffix" if stem.endswith((".yaml", ".yml")) else "other"))
+    if ctx.rng.random() < 0.3:
+        p1 = d / stem
     try:
         with quiet():
             obj.save_to_config(p1)
@@ -165,6 +170,10 @@ def roundtrip_obj(ctx, obj, cls, inp, what, model_classes):
             loaded.save_to_config(p2)
     except Exception as e:
         ctx.violation(f"C19 violated: save/load of {what} raised {type(e).__name__}: {e}", inp, key={"kind": "roundtrip-raises"})
+        return None
+    if not os.path.exists(str(p1)):
+        ctx.violation(f"C19 violated: save_to_config('{os.path.basename(str(p1))}') did not write the file it was asked to write "
+                      f"(directory now holds {sorted(os.listdir(d))})", inp, key={"kind": "roundtrip-raises"})
         return None
     t1, t2 = open(p1).read(), open(p2).read()
     if t1 != t2:
